@@ -267,15 +267,16 @@ Lemma working_weights_spec dmu var w n :
     forall i, (i < n)%nat -> nth i ww 0 = nth i w 0 * (nth i dmu 0 * nth i dmu 0) / nth i var 0.
 Proof.
   intros Hd Hv Hw. unfold working_weights.
-  rewrite (vbin_some _ dmu dmu) by lia. cbn [bind].
-  rewrite (vbin_some _ w) by (rewrite map2_length; lia). cbn [bind].
+  rewrite (vbin_some _ w dmu) by lia. cbn [bind].
+  rewrite (vbin_some _ dmu var) by lia. cbn [bind].
   rewrite vbin_some by (rewrite !map2_length; lia).
   eexists; split; [reflexivity|]. split.
   - rewrite !map2_length; lia.
   - intros i Hi.
     rewrite (nth_map2 _ _ _ _ _ 0 0) by (rewrite ?map2_length; lia).
-    rewrite (nth_map2 _ _ _ _ _ 0 0) by (rewrite ?map2_length; lia).
-    rewrite (nth_map2 _ _ _ _ _ 0 0) by lia. reflexivity.
+    rewrite (nth_map2 _ _ _ _ _ 0 0) by lia.
+    rewrite (nth_map2 _ _ _ _ _ 0 0) by lia.
+    change (mul RO) with Rmult. change (div RO) with Rdiv. unfold Rdiv. ring.
 Qed.
 
 Lemma compute_ddbeta_spec x dmu var w n p :
